@@ -269,9 +269,6 @@ theorem ginv_fold (U : Universe) (P : Problem) (org : Org) (cls : List ACl) (hp 
 theorem ginv_init (U : Universe) (P : Problem) : GInv U P { nodes := #[.root, .unresolved] } [] :=
   ⟨by simp, rfl, rfl, fun e he => by simp at he, fun _ _ hm => by cases hm⟩
 
-/-- the edges of a graph as (source node, target node, kind) -/
-def nodeEdges (g : RG) : List (Node × Node × EKind) := g.edges.toList.map (fun e => (g.node e.1, g.node e.2.1, e.2.2))
-
 /-- removing the unused unresolved node renames an index but changes no edge (as a relation between nodes) -/
 theorem dropUnresolved_edges (U : Universe) (P : Problem) (g : RG) (last : List (Nat × Nat)) (h : GInv U P g last) :
     ∀ x ∈ nodeEdges (dropUnresolved g), EdgeTrue U P x.1 x.2.1 x.2.2 := by
